@@ -18,6 +18,7 @@ CONSTANTS
   AtomicExec = FALSE
   MaxDrop = 0
   DropKinds = {"D", "R", "J"}
+  Offline = {}
 INVARIANTS TypeOK Inv_SameTerms Inv_OrderIndependent Inv_OwnIndex Inv_SameQual Inv_NoLoss Inv_EchoHeals Inv_SameGroupButTransition Inv_SameGroup
 VIEW View
 CHECK_DEADLOCK FALSE
